@@ -172,7 +172,7 @@ func (n *Number) AsNode() (num Node) {
 	switch {
 	case 0 < len(n.BigBuf):
 		num = Big(n.BigBuf)
-	case n.Frac == 0 && n.Exp == 0:
+	case n.Div == 1 && n.Exp == 0:
 		i := int64(n.I)
 		if n.Neg {
 			i = -i
